@@ -7,7 +7,8 @@ import core
 import decsuite as ds
 
 THEOREMS = ["C10.c10_lookahead", "C10.c10_pulls_bounded", "C10.c10_source", "lookahead_facts", "runWalker_acct",
-            "MsgWF.c10_shown", "MsgWF.c01_command", "MsgWF.c01_response", "MsgWF.c09_stream"]
+            "MsgWF.c10_shown", "MsgWF.c01_command", "MsgWF.c01_response", "MsgWF.c09_stream",
+            "C10.c10_prefix_stable", "C10.c10_prefix_exact", "runWalker_tr"]
 SOURCES = ["bytes", "bytearray", "list", "tuple", "iterator", "generator"]
 
 
